@@ -66,6 +66,7 @@ class HtmlDoc:
     self.attrs = []       # [(tag, name, unescaped value, raw value)]
     self.text_all = []    # text pieces outside script/style, unescaped
     self.text_vis = []    # ... and outside elements of class `tooltip`
+    self.text_tok = []    # text_vis with '\x1f' at every element boundary
     self.rawtext = []     # script/style contents
 
   def all_text(self):
@@ -73,6 +74,10 @@ class HtmlDoc:
 
   def visible_text(self):
     return ''.join(self.text_vis)
+
+  def token_text(self):
+    """Visible text in which element boundaries separate tokens."""
+    return ''.join(self.text_tok)
 
 
 class _Strict(HTMLParser):
@@ -106,6 +111,7 @@ class _Strict(HTMLParser):
     self.doc.names.append(tag)
     self.doc.names.extend(names)
     self.doc.skeleton.append(('S', tag, tuple(sorted(names))))
+    self.doc.text_tok.append('\x1f')
     if tag in VOID:
       return
     if selfclosing:
@@ -129,6 +135,7 @@ class _Strict(HTMLParser):
 
   def handle_endtag(self, tag):
     self.doc.skeleton.append(('E', tag))
+    self.doc.text_tok.append('\x1f')
     if tag in VOID:
       self._err('end-tag-for-void', tag)
       return
@@ -151,6 +158,7 @@ class _Strict(HTMLParser):
     self.doc.text_all.append(t)
     if not (self.stack and self.stack[-1][1]):
       self.doc.text_vis.append(t)
+      self.doc.text_tok.append(t)
 
   def handle_data(self, data):
     if self.stack and self.stack[-1][0] in RAWTEXT:
@@ -197,6 +205,17 @@ def parse_html(s):
   if p.stack:
     p._err('unclosed-elements', ' '.join(t for t, _ in p.stack))  # pylint: disable=protected-access
   return p.doc
+
+
+def has_token(text, t):
+  """`t` occurs in `text` as a token of its own.
+
+  A number that is only part of a longer literal (`0.0` inside `-0.0`, `1`
+  inside `1.0` or `21`, `'a'` inside `b'a'`) is a different value, hence not
+  an occurrence of `t`.  `text` is HtmlDoc.token_text(): element boundaries
+  are token boundaries.
+  """
+  return re.search(r'(?<![\w.+\-])' + re.escape(t) + r'(?![\w.])', text) is not None
 
 
 def check_html(s, marks=()):
@@ -383,6 +402,9 @@ c=C(); c.feed(s); c.close(); assert not c.e and not c.k, (c.e, c.k)'''
 
 _W_TEXT = ("import html, re; t = html.unescape(re.sub(r'<[^>]*>', '', "
            "re.sub(r'<span class=\"tooltip[^\"]*\"[^>]*>[^<]*</span>', '', s)))")
+_W_TOKEN = ("import html, re; t = html.unescape(re.sub(r'<[^>]*>', '\\x1f', "
+            "re.sub(r'<span class=\"tooltip[^\"]*\"[^>]*>[^<]*</span>', '', s))); "
+            "assert re.search(r'(?<![\\w.+\\-])' + re.escape(%r) + r'(?![\\w.])', t), t")
 _W_FALLBACK = ("import sys; sys.path[:0] = ['/verif']; from bounded.c20_html import check_html; "
                "assert not check_html(s), check_html(s)[:3]")
 
@@ -523,7 +545,7 @@ class Case:
     _record(rec, self.group + '/renders', self.key, isinstance(s, str), 'not a str')
 
     doc = parse_html(s)
-    all_text, vis_text = doc.all_text(), doc.visible_text()
+    all_text, vis_text, tok_text = doc.all_text(), doc.visible_text(), doc.token_text()
     raw_in_script = ''.join(doc.rawtext)
 
     # --- per plant: leak / mangling / presence.
@@ -613,12 +635,15 @@ class Case:
           ok = text in vis_text or repr(text) in vis_text
         elif kind == 'tip':     # shown inside a tooltip
           ok = text in all_text
+        elif kind == 'token':   # simple leaves / int keys: as a token of their own
+          ok = has_token(tok_text, text)
         else:
           ok = text in vis_text
         cid = '%s/present:%s' % (self.pgroup, suffix)
         _record(rec, cid, (self.key, kind, text), ok,
                 '%s %r is not in the text of the document (outside tooltips)' % (kind, text),
-                W(_W_TEXT + '; assert %r in t or %r in t' % (text, repr(text))))
+                W(_W_TOKEN % text if kind == 'token' else
+                  _W_TEXT + '; assert %r in t or %r in t' % (text, repr(text))))
 
     # --- value unchanged.
     if self.check_unmodified:
@@ -1009,7 +1034,7 @@ def expected_tree(v, kw):
       if isinstance(x, str):
         out.append(('str', x, 'str-leaf'))
       elif isinstance(x, (bool, int, float, type(None))):
-        out.append(('leaf', repr(x), 'simple-leaf'))
+        out.append(('token', repr(x), 'simple-leaf'))
       elif isinstance(x, bytes):
         if len(x) <= 64:
           out.append(('leaf', repr(x), 'bytes-leaf'))
@@ -1046,6 +1071,9 @@ def expected_tree(v, kw):
                 and isinstance(c.value if isinstance(c, pg.Ref) else c, str)):
             suffix += '+enable_summary_for_str=False'
         out.append(('key', k, suffix))
+      elif isinstance(k, int) and not isinstance(k, bool):
+        # positions of a sequence / int keys of a dict are keys as well.
+        out.append(('token', str(k), 'index-key' if isinstance(x, (list, tuple)) else 'int-key'))
       walk(c, False)
 
   walk(v, True)
@@ -1502,6 +1530,222 @@ def drv_scoping(tier, seed):
   return rec.result()
 
 
+# ---------------------------------------------------------------------------
+# Driver 5: every leaf is shown as *itself*.
+#
+# "Every ... leaf value of the rendered tree is present in the output": a leaf
+# is not present when another value is displayed in its place.  Values that
+# are easily taken for each other are those that compare (and hash) equal
+# although they are different values with different texts -- 1 / True / 1.0 /
+# (1+0j), 0 / False / 0.0 / -0.0, 10**20 / 1e20, objects of a user class with a
+# permissive __eq__ -- and those whose text is part of the text of another one
+# ('0.0' in '-0.0', 'ab' in b'ab').  Every ordered pair of such look-alikes is
+# rendered (a) side by side in one container and (b) in two consecutive,
+# independent renderings (what was rendered before must not matter), at every
+# kind of position a leaf can have, and each leaf has to be found as a token of
+# its own in the text outside tooltips.
+# ---------------------------------------------------------------------------
+
+_PRE_LEAF_PARTS = [
+    ('decimal.', 'import decimal\n'),
+    ('fractions.', 'import fractions\n'),
+    ('Eq(', '''class Eq:
+  \"\"\"Equal to every number and every Eq, hashes like 1; shown by its repr.\"\"\"
+  def __init__(self, r): self.r = r
+  def __eq__(self, other): return isinstance(other, (Eq, int, float, complex))
+  def __hash__(self): return hash(1)
+  def __repr__(self): return self.r
+'''),
+    ('An(', '''class An(pg.Object):
+  x: pg.typing.Any()
+  y: pg.typing.Any() = None
+'''),
+    ('Ty(', '''class Ty(pg.Object):
+  i: int = 1
+  b: bool = True
+  f: float = 1.0
+  z: float = 0.0
+  c: bool = False
+  j: int = 0
+'''),
+]
+PRE_LEAF = ''.join(x for _, x in _PRE_LEAF_PARTS)
+
+
+def _leaf_head(stmts):
+  return 'import pyglove as pg\n' + ''.join(x for k, x in _PRE_LEAF_PARTS if k in stmts)
+
+
+# group -> [(source, kind)]; kind 'exact': shown by its repr, 'loose': repr or
+# str (library number types), 'str': a str leaf (repr or the text itself).
+LOOKALIKES = {
+    'one': [('1', 'exact'), ('True', 'exact'), ('1.0', 'exact'), ('(1+0j)', 'exact'),
+            ("decimal.Decimal('1')", 'loose'), ('fractions.Fraction(1, 1)', 'loose')],
+    'zero': [('0', 'exact'), ('False', 'exact'), ('0.0', 'exact'), ('-0.0', 'exact'), ('0j', 'exact')],
+    'small': [('2', 'exact'), ('2.0', 'exact'), ('-1', 'exact'), ('-1.0', 'exact'), ('-2.0', 'exact'),
+              ('-2', 'exact')],
+    'big': [('10**20', 'exact'), ('1e20', 'exact'), ('2**53', 'exact'), ('float(2**53)', 'exact'),
+            ('2**53 + 1', 'exact')],
+    'special-float': [("float('nan')", 'exact'), ("float('inf')", 'exact'), ("float('-inf')", 'exact')],
+    'text-of-other-type': [('None', 'exact'), ("'None'", 'str'), ('True', 'exact'), ("'True'", 'str'),
+                           ('1', 'exact'), ("'1'", 'str'), ("'1.0'", 'str'), ('1.0', 'exact'),
+                           ("float('nan')", 'exact'), ("'nan'", 'str')],
+    'bytes-str': [("b'ab'", 'exact'), ("'ab'", 'str'), ("b''", 'exact'), ("''", 'str'), ("b'1'", 'exact'),
+                  ('1', 'exact')],
+    'user-eq': [("Eq('eqobja')", 'exact'), ("Eq('eqobjb')", 'exact'), ('1', 'exact'), ('True', 'exact'),
+                ('1.0', 'exact')],
+}
+
+# (position, side-by-side template with {A} {B}, single template with {A})
+LEAF_POSITIONS = [
+    ('root', None, '{A}'),
+    ('list-item', '[{A}, {B}]', '[{A}]'),
+    ('tuple-item', '({A}, {B})', '({A},)'),
+    ('dict-value', "{{'ka': {A}, 'kb': {B}}}", "{{'ka': {A}}}"),
+    ('pg.List-item', 'pg.List([{A}, {B}])', 'pg.List([{A}])'),
+    ('pg.Dict-value', 'pg.Dict(ka={A}, kb={B})', 'pg.Dict(ka={A})'),
+    ('pg.Object-field', 'An({A}, {B})', 'An({A})'),
+    ('nested', "{{'ka': [{A}, {{'kb': ({B},)}}]}}", "[{{'ka': ({A},)}}]"),
+    ('across-containers', "[[{A}], {{'kb': {B}}}]", None),
+    ('ref', 'pg.Dict(ka=pg.Ref(An({A})), kb=An({B}))', 'pg.Ref(An({A}))'),
+    # containers that are equal (==, pg.eq, hash) although their leaves differ
+    ('equal-containers', '[An({A}), An({B}), pg.Dict(ka={A}), pg.Dict(ka={B})]', 'An(0, An({A}))'),
+]
+
+LEAF_OPTSETS = [
+    ('default', {}),
+    ('no-tooltips+content-only', dict(content_only=True, enable_summary_tooltip=False, enable_key_tooltip=False)),
+    ('label-keys+expand-all', dict(key_style='label', collapse_level=None)),
+    ('summary-always', dict(enable_summary=True, max_summary_len_for_str=0)),
+    ('no-summary', dict(enable_summary=False, collapse_level=0)),
+]
+
+
+def _leaf_texts(value, kind):
+  if kind == 'str':
+    return [repr(value), value]     # ('' as text is trivially there)
+  if kind == 'loose':
+    return [repr(value), str(value)]
+  return [repr(value)]
+
+
+def _lookalike(va, vb, ta, tb):
+  """Equal (or equal hash) values, or the text of one is part of the other's."""
+  try:
+    if va == vb or vb == va or hash(va) == hash(vb):
+      return True
+  except Exception:  # pylint: disable=broad-except
+    pass
+  return any(x in y or y in x for x in ta for y in tb if x and y)
+
+
+def drv_leaf_identity(tier, seed):
+  rec = Recorder(
+      PROP, 'look-alike leaves (equal across types, or text contained in the other text) are each '
+            'shown as themselves, side by side and in consecutive renderings',
+      scope='%d look-alike groups (%s), every ordered pair of look-alikes (==, equal hash, or one text inside the other) of a group x %d leaf positions (side by '
+            'side in one value; one after the other in two renderings) x %d option sets (quick: '
+            'default options for all, the others rotate over every third pair x position); typed fields with look-alike '
+            'defaults; each leaf must occur as a token of its own outside tooltips'
+            % (len(LOOKALIKES), ', '.join(LOOKALIKES), len(LEAF_POSITIONS), len(LEAF_OPTSETS)))
+  shift = rng(seed, 'c20-leaf-identity').randrange(60)
+  ns = _ns(PRE_LEAF)
+  def render(vsrc, opts):
+    v = eval(vsrc, dict(ns))  # pylint: disable=eval-used
+    return pg.to_html_str(v, **opts)
+
+  def judge(cid, key, stmts, s, leaves):
+    """leaves: [(src, acceptable texts)].  Records presence + well-formedness."""
+    doc = parse_html(s)
+    _record(rec, 'leaf-identity/wellformed', key, not doc.errors,
+            '; '.join('%s: %s' % e for e in doc.errors[:3]), _leaf_head(stmts) + stmts + _W_FALLBACK)
+    tok = doc.token_text()
+    for src, texts in leaves:
+      ok = any(has_token(tok, t) for t in texts)
+      shown = [x for x in tok.split('\x1f') if x.strip()]
+      tname = type(eval(src, dict(ns))).__name__  # pylint: disable=eval-used
+      _record(rec, '%s:%s-leaf' % (cid, tname), key, ok,
+              'leaf %s (text %s) is not shown as a token of its own; texts shown: %r'
+              % (src, ' or '.join(map(repr, texts)), shown[:12]),
+              lambda texts=texts: _leaf_head(stmts) + stmts + 'import html, re\n' + _W_TOKENS % (texts,))
+
+  def opts_src(opts):
+    return ''.join(', %s=%r' % kv for kv in opts.items())
+
+  n = 0
+  for gname, members in LOOKALIKES.items():
+    vals = [(src, kind, eval(src, dict(ns))) for src, kind in members]  # pylint: disable=eval-used
+    for ia, (sa, ka, va) in enumerate(vals):
+      for ib, (sb, kb, vb) in enumerate(vals):
+        if ia == ib:
+          continue
+        ta, tb = _leaf_texts(va, ka), _leaf_texts(vb, kb)
+        if set(ta) & set(tb):
+          continue     # same text: nothing to tell apart
+        if not _lookalike(va, vb, ta, tb):
+          continue
+        cid_pair = gname
+        for pos, both, single in LEAF_POSITIONS:
+          n += 1
+          if tier == 'quick':
+            # default options everywhere; the other option sets rotate over
+            # every third (pair, position).
+            osets = [LEAF_OPTSETS[0]]
+            if (n + shift) % 3 == 0:
+              osets.append(LEAF_OPTSETS[1 + (n // 3 + shift) % (len(LEAF_OPTSETS) - 1)])
+          else:
+            osets = LEAF_OPTSETS
+          for oname, opts in osets:
+            if both is not None:
+              vsrc = both.format(A=sa, B=sb)
+              stmts = 'v = %s\ns = pg.to_html_str(v%s)\n' % (vsrc, opts_src(opts))
+              try:
+                s = render(vsrc, opts)
+              except Exception as e:  # pylint: disable=broad-except
+                _record(rec, 'leaf-identity/raises:%s' % type(e).__name__, (vsrc, oname), False,
+                        repr(e), _leaf_head(stmts) + stmts)
+              else:
+                judge('leaf-identity.side-by-side/%s' % cid_pair, (pos, sa, sb, oname), stmts, s,
+                      [(sa, ta), (sb, tb)])
+            if single is not None:
+              v1, v2 = single.format(A=sa), single.format(A=sb)
+              stmts = ('pg.to_html_str(%s%s)\nv = %s\ns = pg.to_html_str(v%s)\n'
+                       % (v1, opts_src(opts), v2, opts_src(opts)))
+              try:
+                render(v1, opts)
+                s = render(v2, opts)
+              except Exception as e:  # pylint: disable=broad-except
+                _record(rec, 'leaf-identity/raises:%s' % type(e).__name__, (v1, v2, oname), False,
+                        repr(e), _leaf_head(stmts) + stmts)
+              else:
+                judge('leaf-identity.consecutive-renderings/%s' % cid_pair, (pos, sa, sb, oname),
+                      stmts, s, [(sb, tb)])
+
+  # Typed fields: defaults / given values that are look-alikes of each other.
+  for vsrc, leaves in [
+      ('Ty()', ['1', 'True', '1.0', '0.0', 'False', '0']),
+      ('Ty(f=2.0, i=2, z=-0.0)', ['2', 'True', '2.0', '-0.0', 'False', '0']),
+      ('Ty(b=False, c=True, i=0, j=1, f=0.0, z=1.0)', ['0', 'False', '0.0', '1.0', 'True', '1']),
+      ('[Ty(), An(1.0, True), An(True, 1.0)]', ['1', 'True', '1.0', '0.0', 'False', '0']),
+      ('pg.Dict(a=Ty(), b=0.0, c=False, d=-0.0, e=1)', ['1', 'True', '1.0', '0.0', 'False', '0', '-0.0']),
+  ]:
+    for oname, opts in LEAF_OPTSETS:
+      stmts = 'v = %s\ns = pg.to_html_str(v%s)\n' % (vsrc, opts_src(opts))
+      try:
+        s = render(vsrc, opts)
+      except Exception as e:  # pylint: disable=broad-except
+        _record(rec, 'leaf-identity/raises:%s' % type(e).__name__, (vsrc, oname), False, repr(e),
+                _leaf_head(stmts) + stmts)
+        continue
+      judge('leaf-identity.typed-fields', (vsrc, oname), stmts, s, [(t, [t]) for t in leaves])
+  return rec.result()
+
+
+_W_TOKENS = ("t = html.unescape(re.sub(r'<[^>]*>', '\\x1f', "
+             "re.sub(r'<span class=\"tooltip[^\"]*\"[^>]*>[^<]*</span>', '', s)))\n"
+             "assert any(re.search(r'(?<![\\w.+\\-])' + re.escape(x) + r'(?![\\w.])', t) for x in %r), "
+             "[x for x in t.split('\\x1f') if x.strip()]")
+
 _W_THREADS = '''import pyglove as pg, threading
 v = pg.Dict(a='x', b=[1])
 f = lambda **k: pg.to_html_str(v, content_only=True, **k)
@@ -1518,7 +1762,7 @@ ts = [threading.Thread(target=work, args=(i,)) for i in (0, 1)]
 assert got == want
 '''
 
-DRIVERS = [drv_positions, drv_option_pairs, drv_controls, drv_scoping]
+DRIVERS = [drv_positions, drv_option_pairs, drv_controls, drv_scoping, drv_leaf_identity]
 
 
 def replay(rec):
